@@ -151,7 +151,17 @@ let rec gen_expr st (env : genv) (t : ty) (d : int) ~(nil_ok : bool) : expr * in
           EField (e1 (TRec (n_of_int r)), n_of_int r, nat_of_int pos) in
       let (rhs, kr) = ge ~nil_ok:(match t with TRec _ -> true | _ -> false) t in
       (EAssign (lhs, rhs), kr)
-    | `Arith -> (EBin (Rng.pick st.rng arith, e1 TInt, e1 TInt), 0)
+    | `Arith ->
+      (* a constant zero divisor is rejected by the constant folder (front/constred.c), which is
+         not a typing rule: divisors are non-zero literals or plain int names *)
+      let op = Rng.pick st.rng arith in
+      let rhs = (match op with
+          | Div | Mod ->
+            let ints = List.filter (fun b -> b.t = TInt) vis in
+            if ints <> [] && Rng.bool st.rng then EVar (n_of_int (Rng.pick st.rng ints).nm)
+            else EInt (z_of_int (Rng.range st.rng 1 9))
+          | _ -> e1 TInt) in
+      (EBin (op, e1 TInt, rhs), 0)
     | `Neg -> (ENeg (e1 TInt), 0)
     | `BNot -> (EBNot (e1 TInt), 0)
     | `If -> (EIf (e1 TBool, e1 TInt), 0)
